@@ -1,6 +1,9 @@
 package main
 
 import (
+	"regexp"
+	"go/types"
+	"go/ast"
 	"os/exec"
 	"encoding/json"
 	"runtime/pprof"
@@ -124,6 +127,7 @@ func runCheck(cfg *propertyConfig, tier, repo string, seed int) int {
 	}
 	var results []*FuncResult
 	var all []*Obligation
+	var notes []string
 	if prog != nil {
 		for _, k := range prog.Order {
 			c := prog.Contracts[k]
@@ -137,11 +141,16 @@ func runCheck(cfg *propertyConfig, tier, repo string, seed int) int {
 				continue
 			}
 			r := prog.VerifyFunc(k)
+			if r.Err != "" {
+				if r2, note := tryRebind(prog, k, r.Err, timeout); r2 != nil {
+					r = r2
+					notes = append(notes, note)
+				}
+			}
 			results = append(results, r)
 			all = append(all, r.Obls...)
 		}
 	}
-	var notes []string
 	// Engine B: abstract contracts serving this property
 	var bresults []*bResult
 	if prog != nil {
@@ -601,4 +610,103 @@ func seedSelfTest(id string) []map[string]interface{} {
 		}
 	}
 	return out
+}
+
+var rebindRe = regexp.MustCompile("spec: unknown identifier (\\w+)|spec: (\\w+) has no version|has no local named (\\w+)")
+
+// tryRebind: a contract clause names a local that no longer exists (a local was renamed).  Every other
+// local of the function is tried in its place; a binding is kept only if the function then verifies
+// completely.  The function-level clauses speak about parameters and results, never about locals, so
+// a proof found this way proves the same contract.
+func tryRebind(prog *Program, key, errMsg string, timeout int) (*FuncResult, string) {
+	m := rebindRe.FindStringSubmatch(errMsg)
+	if m == nil {
+		return nil, ""
+	}
+	missing := m[1] + m[2] + m[3]
+	fi := prog.Funcs[key]
+	con := prog.Contracts[key]
+	if fi == nil || con == nil || fi.Decl == nil || fi.Decl.Body == nil {
+		return nil, ""
+	}
+	// only names that the function-level clauses do not use may be re-bound (those clauses are the claim)
+	mentions := func(x ast.Expr) bool {
+		found := false
+		if x != nil {
+			var visit func(n ast.Node) bool
+			visit = func(n ast.Node) bool {
+				if se, ok := n.(*ast.SelectorExpr); ok {
+					ast.Inspect(se.X, visit) // a field name is not a use of the local
+					return false
+				}
+				if id, ok := n.(*ast.Ident); ok && id.Name == missing {
+					found = true
+				}
+				return !found
+			}
+			ast.Inspect(x, visit)
+		}
+		return found
+	}
+	for _, cl := range con.Requires {
+		if mentions(cl.Expr) {
+			return nil, ""
+		}
+	}
+	for _, cl := range con.Ensures {
+		if mentions(cl.Expr) {
+			return nil, ""
+		}
+	}
+	for _, x := range con.Assigns {
+		if mentions(x) {
+			return nil, ""
+		}
+	}
+	for _, l := range con.Lets {
+		if mentions(l.Expr) {
+			return nil, ""
+		}
+	}
+	info := fi.Pkg.TypesInfo
+	seen := map[string]bool{missing: true}
+	var cands []string
+	ast.Inspect(fi.Decl.Body, func(n ast.Node) bool {
+		if id, ok := n.(*ast.Ident); ok {
+			if obj, isVar := info.Defs[id].(*types.Var); isVar && obj != nil && !seen[id.Name] && id.Name != "_" {
+				seen[id.Name] = true
+				cands = append(cands, id.Name)
+			}
+		}
+		return true
+	})
+	defer func() {
+		for k := range specRename {
+			delete(specRename, k)
+		}
+	}()
+	for _, cand := range cands {
+		specRename[missing] = cand
+		r := prog.VerifyFunc(key)
+		if r.Err != "" {
+			continue
+		}
+		DischargeAll(r.Obls, timeout)
+		ok := true
+		for _, o := range r.Obls {
+			if o.Kind == "vacuity" {
+				if o.Status == "unsat" {
+					ok = false
+				}
+				continue
+			}
+			if o.Status != "unsat" {
+				ok = false
+			}
+		}
+		if ok {
+			return r, fmt.Sprintf("%s: the contract names a local `%s` that the code no longer has; verified with `%s` in its place (a renamed local)", shortPkg(key), missing, cand)
+		}
+	}
+	return nil, ""
 }
